@@ -405,7 +405,7 @@ pub open spec fn replier_may_go<E, E2>(s: Option<(BoxSink<Frame, E>, BoxStream<R
                     proof { if item is Message { g_rep_in = g_rep_in.push(item); } }
 //@hint before "let r = self.sink.start_send("
             proof { if self.buffered_rep->Some_0 is Message { g_rep_out = g_rep_out.push(self.buffered_rep->Some_0); } }
-//@hint arm "Ok(()) => if let Err(e) = si.start_send(self.buffered_req.take()"
+//@hint before "si.start_send(self.buffered_req.take()"
                     proof { g_req_gone = g_req_gone.push(self.buffered_req->Some_0); }
 //@hint arm "Frame::Message(mut payload) =>"
                     let ghost p0 = payload;
